@@ -421,6 +421,8 @@ int main(int argc, char **argv)
 	hx_parse(argc, argv, &A);
 	if (strstr(A.extra, "serial")) SMODE = SCHED_SERIAL; else if (strstr(A.extra, "off")) SMODE = SCHED_OFF;
 	if (A.corpus) ncorpus = list_dir(A.corpus, &corpus);
+	// a threaded coder that stops making progress in chaos mode can only be seen as a hang
+	hx_set_case_watchdog(A.only >= 0 ? 300 : 120);
 	uint64_t idx = UINT64_MAX;
 	while (hx_next_case(&A, &idx)) { if (!strcmp(A.mode, "c08")) c08_case(idx); else c07_case(idx); }
 	for (size_t i = 0; i < ncorpus; ++i) free(corpus[i]);
